@@ -815,15 +815,15 @@ def instances(tier):
     # call histories
     if thorough:
         res.append(("history:BD", (["BD"], [3], [1, 2, 3], [1], ["lo", "hi", "mid"], ["lo", "hi"], ["zero"], [1], ["PSK4"], [120]), {"scales": [-7, 0, 7]}, {"walks": 300, "walk_len": 12}))
-        res.append(("history:WBD", (["WBD"], [2], [1, 2, 3], [1, 2], ["lo", "hi"], ["lo", "hi"], ["zero", "hi"], [1], ["PSK4"], [120]), {"scales": [-7, 7]}, {"walks": 300, "walk_len": 12}))
-        res.append(("history:EBD:attrs", (["EBD"], [3], [2, 3], [1], ["lo", "hi"], ["lo", "hi"], ["zero", "hi"], [1, 2], ["PSK4"], [120]), {"scales": [-7]},
+        res.append(("history:WBD", (["WBD"], [2], [1, 2, 3], [1, 2], ["lo", "hi"], ["lo", "hi"], ["zero", "hi"], [1], ["PSK4"], [120]), {"scales": [7]}, {"walks": 300, "walk_len": 12}))
+        res.append(("history:EBD:attrs", (["EBD"], [3], [2, 3], [1], ["lo", "hi"], ["lo", "hi"], ["zero", "hi"], [1, 2], ["PSK4"], [120]), {"scales": [-7], "acts": ALL_ACTS - {"CalcFilterUserK"}},
                     {"walks": 800, "walk_len": 14, "max_len": 14}))
         res.append(("history:EBD:K2", (["EBD"], [2], [2, 3], [1, 2], ["hi"], ["lo"], ["hi"], [1, 2, 3], ["PSK4", "QAM16"], [120]),
-                    {"extras": True, "scales": [7]}, {"walks": 1500, "walk_len": 14, "max_len": 14}))
+                    {"extras": True, "scales": [7], "acts": ALL_ACTS - {"CalcFilterUserK"}}, {"walks": 1500, "walk_len": 14, "max_len": 14}))
         res.append(("history:EBD:K3", (["EBD"], [3], [1, 2], [1, 2], ["lo"], ["hi"], ["tiny"], [1, 2], ["PSK4"], [60, 120]),
                     {"extras": True, "scales": [-7]}, {"walks": 1500, "walk_len": 14, "max_len": 14}))
         res.append(("history:EBD:K3b", (["EBD"], [3], [2, 3], [1, 2], ["mid"], ["mid"], ["huge"], [1, 2, 3], ["QAM16"], [120]),
-                    {}, {"walks": 1500, "walk_len": 14, "max_len": 14}))
+                    {"acts": ALL_ACTS - {"CalcFilterUserK"}}, {"walks": 1500, "walk_len": 14, "max_len": 14}))
         res.append(("history:EBD:K4pe0", (["EBD"], [4], [2, 3], [1], ["mid"], ["mid"], ["zero"], [1, 2], ["PSK4"], [120]),
                     {"scales": [7]}, {"walks": 800, "walk_len": 14, "max_len": 14}))
     else:
